@@ -12,6 +12,10 @@
  * c03_ubound_m1      : emit_for_begin's do-loop upper bound is `ubound - 1`
  * c03_switch_exits   : emit_inst_SwitchPhase ends with `goto 999`
  * c03_next_first     : emit_run_step assigns the default successor before calling the phase
+ * c03_guard_outside  : dag_ast.py loop_to_ast_node puts the conditional of a guarded looped
+                        assignment OUTSIDE its loop nest (fixes/C01_guard_outside_loops.patch;
+                        false: ForLoop(..., IfThenElse(guard, stmt, Null)), the bounds are evaluated
+                        and the loops run although the guard is false)
  * c03_ret_prefixes   : the three slots written by emit_inst_YieldState, in order
  fail-closed only: emit_inst_FailStep ends with goto 999; emit_return emits goto 999;
  lower_function emits label 999 right after lower_ast; process_ast's pass order.
@@ -47,6 +51,51 @@ CALL_PHASE = ("self.emit('call dagrt_phase_func_{phase_name}({args})'.format(pha
               "args=', '.join(args)))")
 SWITCH_SET = "self.emit('dagrt_state%dagrt_next_phase = ' + self.phase_name_to_phase_sym(inst.next_phase))"
 GOTO = "self.emit('goto 999')"
+
+
+# dag_ast.py, the two recognised shapes of the lowering of one statement
+COND_TO_AST = ["if statement.condition is not True:\n    new_statement = statement.copy(condition=True)\n"
+               "    return IfThenElse(statement.condition, statement_to_ast(new_statement), NullASTNode())\n"
+               "else:\n    return statement_to_ast(statement)"]
+LOOP_OLD = ["if isinstance(statement, Assign) and statement.loops:\n"
+            "    loop_var_name, lower, upper = statement.loops[0]\n"
+            "    new_statement = statement.copy(loops=statement.loops[1:])\n"
+            "    return ForLoop(loop_var_name=loop_var_name, lbound=lower, ubound=upper, "
+            "body=loop_to_ast_node(new_statement))\n"
+            "else:\n    return conditional_to_ast(statement)"]
+LOOPS_NEW = ["if isinstance(statement, Assign) and statement.loops:\n"
+             "    loop_var_name, lower, upper = statement.loops[0]\n"
+             "    new_statement = statement.copy(loops=statement.loops[1:])\n"
+             "    return ForLoop(loop_var_name=loop_var_name, lbound=lower, ubound=upper, "
+             "body=loops_to_ast(new_statement))\n"
+             "else:\n    return statement_to_ast(statement)"]
+LOOP_NEW = ["if statement.condition is not True:\n    new_statement = statement.copy(condition=True)\n"
+            "    return IfThenElse(statement.condition, loops_to_ast(new_statement), NullASTNode())\n"
+            "else:\n    return loops_to_ast(statement)"]
+
+
+def guard_outside(repo):
+    tree = _parse(repo, "dagrt/codegen/dag_ast.py")
+    defs = {n.name: n for n in tree.body if isinstance(n, ast.FunctionDef)}
+    if "loop_to_ast_node" not in defs:
+        raise ShapeError("dag_ast.py: loop_to_ast_node not found")
+    body = _body(defs["loop_to_ast_node"])
+    if body == LOOP_OLD and "conditional_to_ast" in defs and _body(defs["conditional_to_ast"]) == COND_TO_AST \
+            and "loops_to_ast" not in defs:
+        res = False
+    elif body == LOOP_NEW and "loops_to_ast" in defs and _body(defs["loops_to_ast"]) == LOOPS_NEW \
+            and "conditional_to_ast" not in defs:
+        res = True
+    else:
+        raise ShapeError("dag_ast.py loop_to_ast_node / conditional_to_ast / loops_to_ast: unrecognised shape %r" % body)
+    if _body(defs["statement_to_ast"]) != ["return StatementWrapper(statement)"]:
+        raise ShapeError("dag_ast.py statement_to_ast: unrecognised body")
+    # the only user is the main loop of create_ast_from_phase
+    cap = defs.get("create_ast_from_phase")
+    if cap is None or "main_block.append(loop_to_ast_node(statement))" not in [_src(n) for n in ast.walk(cap)
+                                                                                 if isinstance(n, ast.Expr)]:
+        raise ShapeError("dag_ast.py create_ast_from_phase: main_block.append(loop_to_ast_node(statement)) not found")
+    return res
 
 
 def facts(repo):
@@ -157,7 +206,7 @@ def facts(repo):
         ne = True
     else:
         raise ShapeError("expressions.py FortranExpressionMapper.map_comparison: unrecognised body %r" % _body(mc[0]))
-    return dict(ne=ne, cond=cond, ordered=ordered, m1=m1, sw=sw, nf=nf, slots=slots, passes=passes)
+    return dict(ne=ne, cond=cond, ordered=ordered, go=guard_outside(repo), m1=m1, sw=sw, nf=nf, slots=slots, passes=passes)
 
 
 def generate(repo):
@@ -172,6 +221,8 @@ def generate(repo):
     out.append("Definition c03_ubound_m1 : bool := %s." % coq_bool(f["m1"]))
     out.append("Definition c03_switch_exits : bool := %s." % coq_bool(f["sw"]))
     out.append("Definition c03_next_first : bool := %s." % coq_bool(f["nf"]))
+    out.append("(* dagrt/codegen/dag_ast.py loop_to_ast_node *)")
+    out.append("Definition c03_guard_outside : bool := %s." % coq_bool(f["go"]))
     out.append("Definition c03_ret_prefixes : list string := %s." % coq_string_list(f["slots"]))
     out.append("Definition c03_passes : list string := %s." % coq_string_list(f["passes"]))
     return "\n".join(out) + "\n"
